@@ -613,7 +613,7 @@ class Session(BaseSession):
     def _show_variables(self, show: exp.Show) -> AllowedResult:
         rows = [(k, None if v is None else str(v)) for k, v in self.variables.list()]
         like = show.text("like")
-        if like:
+        if show.args.get("like") is not None:  # LIKE '' is a filter too
             rows = [(k, v) for k, v in rows if like_to_regex(like).match(k)]
         return rows, ["Variable_name", "Value"]
 
